@@ -126,6 +126,24 @@ class Hist(c04_gen.Prog):
         return super().random_step()
 
 
+def gen_setitem_alias(rng):
+    """targeted: write one entry through a shallow copy of a tensor that does not store the block yet"""
+    p = Hist(rng)
+    a = p.new(fill=1.0)
+    spec = p.steps[a]['spec']
+    if not spec['blocks']:
+        return p.finish_random(4)
+    q = spec['blocks'][0]['q']
+    idx = []
+    for t, qi in zip(spec['legs'], q):
+        sizes = p.pool[t[1]]['sizes']
+        idx.append(sum(sizes[:qi]))
+    spec['blocks'] = []
+    b = p.push({'op': 'copy_shallow', 'a': a}, p.arr(p.regs[a]['legs'], p.regs[a]['labels']))
+    p.push({'op': 'setitem', 'a': b, 'idx': idx, 'v': 1.0}, {'kind': 'none'})
+    return p.finish_random(2)
+
+
 def gen_history(rng):
     p = Hist(rng)
     return p.finish_random(rng.choice([6, 8, 10, 12]))
@@ -245,7 +263,7 @@ def main(ctx):
         replay_doc = (json.load(open(ctx.replay_in)).get('input') or {})
         nh = 0
         cases = [replay_doc['case']] if replay_doc.get('stream') == 'history' else []
-    cases += [gen_history(rng) for _ in range(nh)]
+    cases += [gen_history(rng) for _ in range(nh)] + [gen_setitem_alias(rng) for _ in range(min(nh, 8))]
     mps_cases = [replay_doc['case']] if replay_doc and replay_doc.get('stream') == 'mps' else []
     for i in range(ctx.pick(10, 60) if replay_doc is None else 0):
         mps_cases.append({'seed': ctx.seed * 1000 + i, 'model': rng.choice(['xxz', 'tfi']), 'L': rng.choice([4, 5, 6]),
